@@ -359,7 +359,11 @@ def main(argv=None):
 
     # second search strategy (coverage-guided, function level) where the property has one
     from . import fuzzstage
-    fz = fuzzstage.run(prop_id, a.tier, seed, a.repo, a.scale)
+    try:
+        fz = fuzzstage.run(prop_id, a.tier, seed, a.repo, a.scale)
+    except Exception:
+        print("harness error in the coverage-guided stage:\n" + traceback.format_exc())
+        return 2
     fuzz_ev = None
     if fz is not None:
         evaluations += fz["execs"]
